@@ -1,14 +1,16 @@
 import GsModel.Scan.GoTypes
 /-
-  C16 — Scanned model schemas describe the type's actual JSON encoding.   (proof on the container fragment, PARTIAL)
+  C16 — Scanned model schemas describe the type's actual JSON encoding.   (proof on the modelled fragment, PARTIAL)
 
   `Scan.schemaOf` is the schema the scanner builds for a Go type, `Scan.encode` the JSON encoding/json produces for a value
   of it, `Scan.accepts` strict draft-4 acceptance of the structural part of a schema.
   * `conforms_containers` — for EVERY type built from basic kinds, time.Time, []byte, interface{}, pointers, slices, arrays and
     string-keyed maps (any nesting) and EVERY value of it: if the encoding contains no JSON null, the scanned schema accepts
     it.
-  * `struct_examples` — structs with renamed, omitted-when-empty and `,string` fields (evaluated examples: tests, not a
-    theorem over all structs).
+  * `conforms` — the same for EVERY well-formed model type INCLUDING structs at any depth (json names distinct within a
+    struct, `,string` only on fields where encoding/json honours it; renamed, omitted-when-empty and quoted fields): every
+    member the encoder emits is accepted by the property the scanner declared for it.  `container_wf`: the container
+    fragment is the struct-free part.  `struct_examples` are evaluated instances.
   * the excluded points are real, each proved: `nil_pointer_rejected`, `nil_slice_rejected` (JSON null against a typed schema;
     the scanner's --nullable-pointers option exists for the first), `string_option_mismatch` (a `,string` field that the scanner types as string although
     encoding/json ignores the option on that type).
@@ -132,6 +134,220 @@ theorem conforms_containers (b : Bool) : ∀ (n : Nat) (t : GoTy) (v : GoVal) (j
       | nil => simp [encode] at he; subst he; simp [noNull] at hn
       | bytes x => simp [encode] at he; subst he; simp [accepts, schemaOf, typeOk]
       | _ => simp [encode] at he
+
+/-! ### structs -/
+
+def distinctNames : List (FTag × GoTy) → Bool
+  | [] => true
+  | f :: r => !(r.any (fun g => g.1.json == f.1.json)) && distinctNames r
+
+theorem distinctNames_inj : ∀ (fs : List (FTag × GoTy)), distinctNames fs = true →
+    ∀ f ∈ fs, ∀ g ∈ fs, f.1.json = g.1.json → f = g
+  | [], _, f, hf, _, _, _ => by simp at hf
+  | x :: r, h, f, hf, g, hg, e => by
+    simp only [distinctNames, Bool.and_eq_true, Bool.not_eq_true', List.any_eq_false, beq_iff_eq] at h
+    simp only [List.mem_cons] at hf hg
+    rcases hf with rfl | hf <;> rcases hg with rfl | hg
+    · rfl
+    · exact absurd e.symm (by simpa using h.1 g hg)
+    · exact absurd e (by simpa using h.1 f hf)
+    · exact distinctNames_inj r h.2 f hf g hg e
+
+/-- well-formed model types: json names distinct within a struct, `,string` only where encoding/json honours it -/
+def wf : Nat → GoTy → Bool
+  | 0, _ => false
+  | _+1, .basic _ => true
+  | n+1, .ptr t => wf n t
+  | n+1, .slice t => wf n t
+  | n+1, .arr t => wf n t
+  | n+1, .map t => wf n t
+  | n+1, .strct fs => distinctNames fs && fs.all (fun ft => wf n ft.2 && (!ft.1.asString || stringable ft.2))
+  | _+1, .time => true
+  | _+1, .bytes => true
+  | _+1, .iface => true
+
+theorem mem_of_mapM_filterMap {α β} (g : α → Option (Option β)) : ∀ (l : List α) (r : List (Option β)) (x : β),
+    l.mapM g = some r → x ∈ r.filterMap id → ∃ a ∈ l, g a = some (some x)
+  | [], r, x, h, hx => by simp at h; subst h; simp at hx
+  | a :: l, r, x, h, hx => by
+    simp only [List.mapM_cons] at h
+    cases ha : g a with
+    | none => simp [ha] at h
+    | some b =>
+      cases hl : l.mapM g with
+      | none => simp [ha, hl] at h
+      | some r' =>
+        simp [ha, hl] at h
+        subst h
+        cases b with
+        | none =>
+          simp only [List.filterMap_cons, id] at hx
+          obtain ⟨a', ha', hg⟩ := mem_of_mapM_filterMap g l r' x hl hx
+          exact ⟨a', List.mem_cons_of_mem _ ha', hg⟩
+        | some y =>
+          simp only [List.filterMap_cons, id, List.mem_cons] at hx
+          rcases hx with rfl | hx
+          · exact ⟨a, by simp, ha⟩
+          · obtain ⟨a', ha', hg⟩ := mem_of_mapM_filterMap g l r' x hl hx
+            exact ⟨a', List.mem_cons_of_mem _ ha', hg⟩
+
+/-- a quoted scalar is a string (or the null of a nil pointer) -/
+theorem stringable_quote : ∀ (n : Nat) (t : GoTy) (v : GoVal) (j : J), stringable t = true → encode n t v = some j →
+    (∃ s, quoteJ j = .str s) ∨ j = .null
+  | 0, _, _, _, _, h => by simp [encode] at h
+  | n+1, t, v, j, hs, he => by
+    cases t with
+    | basic k =>
+      cases k <;> cases v <;> simp [encode] at he <;> subst he <;> simp [quoteJ]
+    | ptr t' =>
+      cases t' with
+      | basic k =>
+        cases v with
+        | nil => simp [encode] at he; right; exact he.symm
+        | ptr w =>
+          simp only [encode] at he
+          exact stringable_quote n (.basic k) w j rfl he
+        | _ => simp [encode] at he
+      | _ => simp [stringable] at hs
+    | _ => simp [stringable] at hs
+
+theorem conforms : ∀ (n : Nat) (t : GoTy) (v : GoVal) (j : J) (m : Nat),
+    wf n t = true → encode n t v = some j → noNull m j = true → accepts m (schemaOf false n t) j = true
+  | 0, _, _, _, _, h, _, _ => by simp [wf] at h
+  | n+1, t, v, j, m, hc, he, hn => by
+    obtain ⟨k, rfl⟩ := noNull_pos m j hn
+    cases t with
+    | basic kd =>
+      cases kd <;> cases v <;> simp [encode] at he <;> subst he <;> simp [accepts, schemaOf, kindSchema, typeOk]
+    | ptr t =>
+      cases v with
+      | nil => simp [encode] at he; subst he; simp [noNull] at hn
+      | ptr w =>
+        simp only [encode] at he
+        simp only [wf] at hc
+        exact conforms n t w j (k+1) hc he hn
+      | _ => simp [encode] at he
+    | slice t =>
+      simp only [wf] at hc
+      cases v with
+      | nil => simp [encode] at he; subst he; simp [noNull] at hn
+      | list l =>
+        simp only [encode] at he
+        cases hm : l.mapM (encode n t) with
+        | none => simp [hm] at he
+        | some r =>
+          simp [hm] at he; subst he
+          simp only [noNull] at hn
+          simp only [accepts, schemaOf, typeOk, Bool.true_and, decide_true, Bool.or_true]
+          exact mapM_all2 (encode n t) (accepts k (schemaOf false n t)) (noNull k) l r hm hn
+            (fun a _ jb hjb hq => conforms n t a jb k hc hjb hq)
+      | _ => simp [encode] at he
+    | arr t =>
+      simp only [wf] at hc
+      cases v with
+      | list l =>
+        simp only [encode] at he
+        cases hm : l.mapM (encode n t) with
+        | none => simp [hm] at he
+        | some r =>
+          simp [hm] at he; subst he
+          simp only [noNull] at hn
+          simp only [accepts, schemaOf, typeOk, Bool.true_and, decide_true, Bool.or_true]
+          exact mapM_all2 (encode n t) (accepts k (schemaOf false n t)) (noNull k) l r hm hn
+            (fun a _ jb hjb hq => conforms n t a jb k hc hjb hq)
+      | _ => simp [encode] at he
+    | map t =>
+      simp only [wf] at hc
+      cases v with
+      | nil => simp [encode] at he; subst he; simp [noNull] at hn
+      | map kvs =>
+        simp only [encode] at he
+        cases hm : kvs.mapM (fun kv => (encode n t kv.2).map (fun j => (kv.1, j))) with
+        | none => simp [hm] at he
+        | some r =>
+          simp [hm] at he; subst he
+          simp only [noNull] at hn
+          simp only [accepts, schemaOf, typeOk, Bool.true_and, decide_true, Bool.or_true, List.all_nil, lookup, Option.isSome_none,
+            Bool.false_or]
+          exact mapM_all2 _ (fun kv => accepts k (schemaOf false n t) kv.2) (fun kv => noNull k kv.2) kvs r hm hn
+            (fun a _ kb hkb hq => by
+              cases hj : encode n t a.2 with
+              | none => simp [hj] at hkb
+              | some j =>
+                simp [hj] at hkb
+                subst hkb
+                exact conforms n t a.2 j k hc hj hq)
+      | _ => simp [encode] at he
+    | time => cases v <;> simp [encode] at he <;> subst he <;> simp [accepts, schemaOf, typeOk]
+    | iface =>
+      have : schemaOf false (n+1) .iface = {} := rfl
+      rw [this]; exact accepts_any k j
+    | bytes =>
+      cases v with
+      | nil => simp [encode] at he; subst he; simp [noNull] at hn
+      | bytes x => simp [encode] at he; subst he; simp [accepts, schemaOf, typeOk]
+      | _ => simp [encode] at he
+    | strct fs =>
+      simp only [wf, Bool.and_eq_true, List.all_eq_true] at hc
+      obtain ⟨hd, hall⟩ := hc
+      cases v with
+      | strct vs =>
+        simp only [encode] at he
+        split at he
+        · cases he
+        · obtain ⟨l, hm, hj0⟩ := Option.map_eq_some_iff.mp he
+          subst hj0
+          · simp only [noNull, List.all_eq_true] at hn
+            simp only [accepts, schemaOf, typeOk, Bool.true_and, decide_true, Bool.or_true, Bool.and_true, List.all_eq_true]
+            intro kp hkp
+            obtain ⟨ft, hft, rfl⟩ := List.mem_map.mp hkp
+            cases hl : lookup (List.filterMap id l) ft.1.json with
+            | none => rfl
+            | some w =>
+              simp only
+              have hmem := lookup_mem _ _ _ hl
+              obtain ⟨fv, hfv, hg⟩ := mem_of_mapM_filterMap _ (fs.zip vs) l (ft.1.json, w) hm hmem
+              have hfs : fv.1 ∈ fs := (List.of_mem_zip hfv).1
+              by_cases hom : (fv.1.1.omitempty && isEmptyVal fv.2) = true
+              · simp [hom] at hg
+              · simp only [hom, Bool.false_eq_true, if_false] at hg
+                cases hj : encode n fv.1.2 fv.2 with
+                | none => simp [hj] at hg
+                | some j' =>
+                  simp only [hj, Option.map_some, Option.some.injEq, Prod.mk.injEq] at hg
+                  obtain ⟨hname, hw⟩ := hg
+                  have hsame : fv.1 = ft := distinctNames_inj fs hd fv.1 hfs ft hft hname
+                  have hnw : noNull k w = true := hn (ft.1.json, w) hmem
+                  have hwf := hall ft hft
+                  simp only [Bool.and_eq_true, Bool.or_eq_true, Bool.not_eq_true'] at hwf
+                  rw [hsame] at hw hj
+                  by_cases hs : (ft.1.asString && stringable ft.2) = true
+                  · simp only [hs, if_true] at hw
+                    have hstr : ft.1.asString = true := by simp only [Bool.and_eq_true] at hs; exact hs.1
+                    simp only [hstr, Bool.false_or, Bool.true_and, hs, if_true]
+                    have hsb : stringable ft.2 = true := by simp only [Bool.and_eq_true] at hs; exact hs.2
+                    rcases stringable_quote n ft.2 fv.2 j' hsb hj with ⟨s', hq⟩ | hnull
+                    · rw [← hw, hq]
+                      obtain ⟨k', rfl⟩ := noNull_pos k w hnw
+                      simp [accepts, typeOk, hsb]
+                    · subst hnull
+                      simp only [quoteJ] at hw
+                      subst hw
+                      obtain ⟨k', rfl⟩ := noNull_pos k _ hnw
+                      simp [noNull] at hnw
+                  · have hs' : (ft.1.asString && stringable ft.2) = false := by simpa using hs
+                    simp only [hs', Bool.false_eq_true, if_false] at hw
+                    subst hw
+                    have hcond : (ft.1.asString && (false || stringable ft.2)) = false := by simpa using hs'
+                    simp only [hcond, Bool.false_eq_true, if_false]
+                    exact conforms n ft.2 fv.2 j' k hwf.1 hj hnw
+      | _ => simp [encode] at he
+
+/-- the container fragment is the struct-free part of `conforms` -/
+theorem container_wf : ∀ (n : Nat) (t : GoTy), container n t = true → wf n t = true
+  | 0, _, h => by simp [container] at h
+  | n+1, t, h => by
+    cases t <;> simp [container] at h <;> simp [wf] <;> exact container_wf n _ h
 
 /-! ### the excluded points are real -/
 
